@@ -408,6 +408,13 @@ class Channel:
         self.events.append(ev)
         return True
 
+    def keep(self, e):
+        """an application may hold on to an exception (an error log, a test's excinfo, a handler that closes the writer
+        while the exception is still propagating): the objects its traceback refers to stay alive as long"""
+        self.kept = getattr(self, "kept", [])
+        self.kept.append(e)
+        del self.kept[:-8]
+
     def _data(self, runs):
         cc = self.cc
         parts = [cc.vals.array(np.arange(a + cc.B, a + cc.B + n, dtype=np.uint64)) for a, n in runs]
@@ -419,17 +426,30 @@ class Channel:
         ev = dict(ev="write", runs=[list(r) for r in runs], uuid=self.sess["uuid"], initutc=self.sess["initutc"])
         arr = self._data(runs)
         try:
+            # the index arguments in the forms callers use: Python int, numpy scalars, contiguous and strided arrays, lists
+            self.nform = getattr(self, "nform", 0) + 1
             if len(runs) == 1 and api != "blocks":
-                ret = self.w.rf_write(arr, runs[0][0] - st)
+                ns = runs[0][0] - st
+                ret = self.w.rf_write(arr, [ns, np.uint64(ns), np.int64(ns), ns][self.nform % 4])
             else:
                 gl = np.array([a - st for a, n in runs], dtype=np.uint64)
                 off = np.cumsum([0] + [n for a, n in runs[:-1]]).astype(np.uint64)
+                form = self.nform % 4
+                if form == 1:      # a column of a (blocks x 2) table: right values, not contiguous in memory
+                    tab = np.zeros((len(gl), 2), dtype=np.uint64)
+                    tab[:, 0], tab[:, 1] = gl, off
+                    gl, off = tab[:, 0], tab[:, 1]
+                elif form == 2:
+                    gl, off = [int(x) for x in gl], [int(x) for x in off]
+                elif form == 3:
+                    gl, off = gl.astype(np.int64), off.astype(np.int64)
                 ret = self.w.rf_write_blocks(arr, gl, off)
             ev.update(resp="ok", ret=int(ret))
             # the harness's own idea of the next free index (not the writer's getter, which is under test)
             self.sess["hnext"] = runs[-1][0] + runs[-1][1] - st
         except Exception as e:
             ev.update(resp="err", ret=-1, exc=type(e).__name__)
+            self.keep(e)
         ev.update(self.getters())
         ev.update(self.dir_obs(self.sess["d"]))
         for a, n in runs:
@@ -442,6 +462,8 @@ class Channel:
         st = self.sess["start"]
         g = self.getters()
         nxt = g["next"]
+        if nxt >= 2**62:        # a position no recording can have: go by the harness's own count (the getter is reported as it is)
+            nxt = self.sess.get("hnext", 0)
         if kind == "past":
             nxt = max(nxt, self.sess.get("hnext", 0))
         d = self.sess["d"]
@@ -469,11 +491,16 @@ class Channel:
                 w.rf_write_blocks(arr, [nxt, nxt + 8], [0, 6])
             elif kind == "length-mismatch":
                 w.rf_write_blocks(arr, [nxt, nxt + 8], [0, 2, 4])
+            elif kind == "negative-index":
+                self.nneg = getattr(self, "nneg", 0) + 1
+                neg = [-5, -25, -1][self.nneg % 3]
+                w.rf_write_blocks(arr, np.array([neg], dtype=np.int64) if self.nneg % 2 else [neg], [0])
             else:
                 raise ValueError(kind)
             ev["resp"] = "ok"
-        except (ValueError, TypeError, RuntimeError, IOError) as e:
+        except (ValueError, TypeError, RuntimeError, IOError, OverflowError) as e:
             ev.update(resp="err", exc=type(e).__name__)
+            self.keep(e)
         ev.update(self.getters())
         ev["same"] = self.tree_hash(d) == before
         self.events.append(ev)
@@ -484,6 +511,8 @@ class Channel:
         d = self.sess["d"]
         before = self.tree_hash(d)
         nxt = self.getters()["next"]
+        if nxt >= 2**62:
+            nxt = self.sess.get("hnext", 0)
         arr = self._data([[self.sess["start"] + nxt, 1]])[:0]
         ev = dict(ev="empty", gap=gap)
         try:
@@ -826,6 +855,11 @@ class CChannel(Channel):
         elif kind == "length-mismatch":
             # the C API takes one length for both arrays; the nearest malformed call is a zero index length
             rc = self._cmd("b %d 0" % (L + 2))
+        elif kind == "negative-index":
+            # the C API takes unsigned indices: the nearest call is one far in the past
+            if nxt == 0:
+                return None
+            rc = self._cmd("w 0 2")
         else:
             raise ValueError(kind)
         ev["resp"] = "crash" if rc is None else ("ok" if rc == 0 else "err")
